@@ -141,16 +141,32 @@ class Calls:
 
 
 # ------------------------------------------------------------------------------------------ traced functions
-def make_model(E, nu, Y0, hard, kind='linear'):
-    J2 = _mods()[0]
-    props = {'elastic modulus': E, 'poisson ratio': nu, 'yield strength': Y0, 'kinematics': 'small deformations'}
+def hardening_props(Y0, hard, kind='linear', rate=None):
+    """property-dict entries of a hardening law; rate = (S, m, epsDot0) switches the power-law rate sensitivity on"""
+    d = {'yield strength': Y0}
     if kind == 'linear':
-        props.update({'hardening model': 'linear', 'hardening modulus': hard[0]})
+        d.update({'hardening model': 'linear', 'hardening modulus': hard[0]})
     elif kind == 'voce':
-        props.update({'hardening model': 'voce', 'saturation strength': hard[0], 'reference plastic strain': hard[1]})
+        d.update({'hardening model': 'voce', 'saturation strength': hard[0], 'reference plastic strain': hard[1]})
+    elif kind == 'power law':
+        d.update({'hardening model': 'power law', 'hardening exponent': hard[0], 'reference plastic strain': hard[1]})
     else:
         raise ValueError(kind)
-    return J2.create_material_model_functions(props)
+    if rate is not None:
+        d.update({'rate sensitivity': 'power law', 'rate sensitivity stress': rate[0], 'rate sensitivity exponent': rate[1], 'reference plastic strain rate': rate[2]})
+    return d
+
+
+def make_model(E, nu, Y0, hard, kind='linear', rate=None, mutate=None):
+    """mutate: entries written into the caller's property dict AFTER the material has been created (a material must keep the
+    constants it was created with)"""
+    J2 = _mods()[0]
+    props = {'elastic modulus': E, 'poisson ratio': nu, 'kinematics': 'small deformations'}
+    props.update(hardening_props(Y0, hard, kind, rate))
+    m = J2.create_material_model_functions(props)
+    if mutate:
+        props.update(mutate)
+    return m
 
 
 def sym_state(p, eqps):
@@ -316,7 +332,7 @@ class J2Case:
         Ms = onp.array([[1.0, 1.0, 0.0], [1.0, -1.0, 0.0], [0.0, 0.0, 0.0]])
         out = []
         for a, k, eq in ((1 / 64, 0.0, 0.0), (1 / 4096, 0.0, 0.0), (1 / 64, 1 / 1024, 1 / 128)):
-            vals = dict(dg=a * M, st=onp.concatenate([[eq], (k * Ms).ravel()]), E=200.0, nu=0.25, Y0=1.0, H=20.0, dt=1.0)
+            vals = dict(dg=a * M, st=onp.concatenate([[eq], (k * Ms).ravel()]), E=200.0, nu=0.25, Y0=1.0, H=20.0, dt=0.5, S=0.5, ed0=2.0)
             if not all(n in vals for n in self.names):
                 return []
             out.append([x == rat(float(v)) for n in self.names for x, v in zip(self.free[n].ravel(), onp.asarray(vals[n], dtype=float).ravel())])
@@ -393,20 +409,21 @@ CC_EXACT = fractions.Fraction(C_FLOW) ** 2   # its exact square (the code's N:N)
 DEFECT_EXACT = 3 - 2 * CC_EXACT              # 3 - 2 c^2 = 5.3e-16 > 0: binary64 sqrt(3/2) is rounded down
 
 
-def f_chain(dg, st, E, nu, Y0, H, dt, energy=False, stress=False):
+def f_chain(dg, st, E, nu, Y0, H, dt, energy=False, stress=False, rate=None, mutate=None):
     """first update (site a), second update from the committed state (site b), and real-code by-products the chain
-    lemmas are phrased in (all computed by the repository's functions)"""
+    lemmas are phrased in (all computed by the repository's functions). rate = (S, m, epsDot0): rate-sensitive material;
+    mutate: the property dict the material was created from is overwritten with these entries before anything is traced"""
     J2, Hd, SRF, TM = _mods()
-    m = make_model(E, nu, Y0, (H,))
+    m = make_model(E, nu, Y0, (H,), rate=rate, mutate=mutate)
     props = J2.make_properties(E, nu, Y0)
-    hm = Hd.create_hardening_model({'hardening model': 'linear', 'yield strength': Y0, 'hardening modulus': H})
+    hm = Hd.create_hardening_model(hardening_props(Y0, (H,), 'linear', rate))      # reference: a dict of its own that is never edited
     site('a')
     st1 = m.compute_state_new(dg, st, dt)
     E0, E1 = J2.compute_elastic_linear_strain(dg, st), J2.compute_elastic_linear_strain(dg, st1)
     D0, D1 = TM.dev(E0), TM.dev(E1)
     N0, N1 = J2.compute_flow_direction(E0), J2.compute_flow_direction(E1)
     aux = dict(mu=props[J2.PROPS_MU], DD0=jnp.tensordot(D0, D0), DN0=jnp.tensordot(D0, N0), DD1=TM.norm_of_deviator_squared(E1),
-               DN1=jnp.tensordot(D1, N1), F0=hm.compute_flow_stress(st[0], st[0], dt), F1=hm.compute_flow_stress(st1[0], st1[0], dt),
+               DN1=jnp.tensordot(D1, N1), F0=hm.compute_flow_stress(st[0], st[0], dt), F1=hm.compute_flow_stress(st1[0], st[0], dt),
                N0=N0, D0=D0, D1=D1, E1=E1)
     if energy:
         site('a')
@@ -423,6 +440,21 @@ def f_chain(dg, st, E, nu, Y0, H, dt, energy=False, stress=False):
         site('b')
         aux['S1'] = jax.grad(m.compute_energy_density)(dg, st1, dt)
     return st1, st2, aux
+
+
+def v_div(a, b):
+    if isz(a) or isz(b):
+        return toz(a) / toz(b)
+    return a / b
+
+
+S_MAX_REL, RATE_MIN, RATE_MAX = 100.0, 1e-6, 1e6
+
+
+def box_rate(i):
+    """rate-sensitive material: 0 <= S <= 100*Y0, reference rate and time step in [1e-6, 1e6]"""
+    S, ed0, dt, Y0 = s0(i['S']), s0(i['ed0']), s0(i['dt']), s0(i['Y0'])
+    return [v_le(0.0, S), v_le(S, v_mul(S_MAX_REL, Y0)), v_le(RATE_MIN, ed0), v_le(ed0, RATE_MAX), v_le(RATE_MIN, dt), v_le(dt, RATE_MAX)]
 
 
 class SpecSqrt:
@@ -457,8 +489,16 @@ class Q:
         self.s1, as1 = sq('s1', self.DD1)
         self.nz0, self.nz1 = v_lt(1e-16, self.DD0), v_lt(1e-16, self.DD1)
         self.tolY = v_mul(tol_rel(), self.Y0)
+        # slope of the flow stress in eqps at fixed eqps_old: H, plus S/(dt*epsDot0) for the rate-sensitive material with exponent m = 1
+        self.rate = 'S' in i
+        if self.rate:
+            self.S, self.ed0, self.dt = s0(i['S']), s0(i['ed0']), s0(i['dt'])
+            self.visc = v_div(self.S, v_mul(self.dt, self.ed0))
+            self.K = v_add(self.H, self.visc)
+        else:
+            self.K = self.H
         self.sq_defs = as0 + as1
-        self.assumes = box_moduli(i, hmin_rel=hmin_rel) + box_state(i) + state_invariant(i['st']) + as0 + as1
+        self.assumes = box_moduli(i, hmin_rel=hmin_rel) + box_state(i) + state_invariant(i['st']) + as0 + as1 + (box_rate(i) if self.rate else [])
         # s - c*a : the norm of the deviatoric elastic strain after the return
         self.rem = v_sub(self.s, v_mul(C_FLOW, self.a))
         self.cca = v_mul(C_FLOW, v_mul(C_FLOW, self.a))
@@ -586,7 +626,7 @@ class Chain:
         q = self.q(hmin_rel)
         goal = mk_goal(q)
         pairs = []
-        scalars = {'E', 'nu', 'Y0', 'H', 'dt', 'st_0'} | {str(v) for v in self.sq.vars.values()}
+        scalars = {'E', 'nu', 'Y0', 'H', 'dt', 'st_0', 'S', 'ed0'} | {str(v) for v in self.sq.vars.values()}
         for nm, t in (table or _table_all)(q):
             if not isz(t):
                 continue
@@ -603,7 +643,7 @@ class Chain:
         ok_names = {str(v) for _, v in pairs} | scalars
         facts = [sub(f) for _, f in self.facts] + [sub(tob(x)) for x in extra]
         facts = [f for f in facts if _consts([f]) <= ok_names]      # links that still mention tensor components are not needed (dropping is sound)
-        box = [sub(tob(x)) for x in box_moduli(self.c.inp, hmin_rel=hmin_rel) + [v_le(0.0, q.e0), v_le(q.e0, EQPS_MAX)] + q.sq_defs]
+        box = [sub(tob(x)) for x in box_moduli(self.c.inp, hmin_rel=hmin_rel) + (box_rate(self.c.inp) if q.rate else []) + [v_le(0.0, q.e0), v_le(q.e0, EQPS_MAX)] + q.sq_defs]
         g2 = _sub_atom(goal, sub)
         stray = sorted(x for x in _consts(box + [g2.neg(0)]) if x not in ok_names)
         rec = None
@@ -628,11 +668,11 @@ class Chain:
         return rec
 
 
-def chain_case(h, build, lab, energy=False, stress=False, assume_post=False, hmin_rel=H_MIN_REL):
+def chain_case(h, build, lab, energy=False, stress=False, assume_post=False, hmin_rel=H_MIN_REL, fn=None, ex=None, sampler=None):
     """assume_post=False: the post-condition of the root-finder contract is not part of the definitions; it enters as an
     explicit fact (Chain.contract_facts) where the chain uses it"""
-    fn = (lambda dg, st, E, nu, Y0, H, dt: f_chain(dg, st, E, nu, Y0, H, dt, energy=energy, stress=stress))
-    c = J2Case(h, fn, EX, build=build, sampler=sampler_full, label='chain_' + lab, assume_post=assume_post)
+    fn = fn or (lambda dg, st, E, nu, Y0, H, dt: f_chain(dg, st, E, nu, Y0, H, dt, energy=energy, stress=stress))
+    c = J2Case(h, fn, ex or EX, build=build, sampler=sampler or sampler_full, label='chain_' + lab, assume_post=assume_post)
     return Chain(h, c, SpecSqrt(), hmin_rel)
 
 
@@ -659,7 +699,7 @@ def links_yield_predicate(ch, cap=60):
         return [Holds(v_eq(q.g, v_lt(q.tolY, over)) if isz(q.g) else (bool(q.g) == bool(q.tolY < over)), name='yield_test_is_2mu_devE_N_minus_flow_gt_tol'),
                 Lt(1e-16, q.DD0, when=q.g, name='yielding_implies_nondegenerate', scale=0.0),
                 Eq(q.F0, v_add(q.Y0, v_mul(q.H, q.e0)), name='flow_stress_old_linear', scale=q.Y0),
-                Eq(q.F1, v_add(q.Y0, v_mul(q.H, q.e1)), name='flow_stress_new_linear', scale=q.Y0),
+                Eq(q.F1, v_add(v_add(q.Y0, v_mul(q.H, q.e1)), v_mul(q.visc, q.a) if q.rate else 0.0), name='flow_stress_new_linear', scale=q.Y0),
                 Eq(A['rtol'], q.tolY, when=q.g, name='root_tolerance_is_yield_tolerance', scale=q.tolY),
                 Eq(q.e1, A['x'], when=q.g, name='new_eqps_is_root', scale=1e-3),
                 Eq(q.e1, q.e0, when=v_not(q.g), name='elastic_keeps_eqps', scale=1e-3),
@@ -673,7 +713,7 @@ def links_bracket(ch, cap=60):
         A = q.A
         T = v_mul(v_mul(2.0, q.mu), q.DN0)
         w = v_sub(A['ub'], A['lb'])
-        rh = v_add(v_sub(v_add(v_mul(v_mul(2.0, q.mu), v_mul(C_FLOW, v_mul(C_FLOW, w))), v_add(q.F0, v_mul(q.H, w))), T), 0.0)
+        rh = v_add(v_sub(v_add(v_mul(v_mul(2.0, q.mu), v_mul(C_FLOW, v_mul(C_FLOW, w))), v_add(q.F0, v_mul(q.K, w))), T), 0.0)
         return [Eq(A['lb'], q.e0, when=q.g, name='lb_is_old_eqps', scale=1e-3),
                 Eq(A['rl'], v_sub(q.F0, T), when=v_and(q.g, q.nz0), name='r_lb_closed_form', scale=q.Y0),
                 Eq(A['rh'], rh, when=v_and(q.g, q.nz0), name='r_ub_closed_form', scale=q.Y0)]
@@ -1319,3 +1359,139 @@ def o9(h):
                         Eq(list(o['stn'])[0], v_add(st[0], INC[0]), name='d.eqps_new_is_eqps_old_plus_increment')]
             return asm, ats
         c.prove(tag, spec, cap=60, order=('core', 'nlsat'))
+
+
+# ------------------------------------------------------------------------------------------ O10: constants bound at creation
+LAWS = (('linear', ('H',), dict(H=2.0), dict(H=7.0)),
+        ('voce', ('Ysat', 'eps0'), dict(Ysat=2.0, eps0=0.05), dict(Ysat=3.5, eps0=0.2)),
+        ('power law', ('n', 'eps0'), dict(n=4.0, eps0=0.02), dict(n=2.5, eps0=0.1)))
+_LAW_KEYS = {'H': 'hardening modulus', 'Ysat': 'saturation strength', 'eps0': 'reference plastic strain', 'n': 'hardening exponent'}
+
+
+def f_twin(kind, names):
+    """material A: created from a property dict that is overwritten afterwards (other law constants, other yield strength);
+    material B: created from a dict of its own with the original constants. Two updates with the state carried over, energies."""
+    def f(dg, dg2, st, E, nu, Y0, dt, Y0x, *hard):
+        k = len(names)
+        c1, c2 = hard[:k], hard[k:]
+        mut = {_LAW_KEYS[n]: v for n, v in zip(names, c2)}
+        mut['yield strength'] = Y0x
+        A = make_model(E, nu, Y0, c1, kind=kind, mutate=mut)
+        B = make_model(E, nu, Y0, c1, kind=kind)
+        out = {}
+        for tag, m in (('A', A), ('B', B)):
+            site('s1')
+            s1 = m.compute_state_new(dg, st, dt)
+            site('s1')
+            w1 = m.compute_energy_density(dg, st, dt)
+            site('s2')
+            s2 = m.compute_state_new(dg2, s1, dt)
+            site('s2')
+            w2 = m.compute_energy_density(dg2, s1, dt)
+            out[tag] = dict(s1=s1, s2=s2, w1=w1, w2=w2)
+        return out
+    return f
+
+
+@obligation(P, 'O10.constants_bound_at_creation', cap=600)
+def o10(h):
+    """a material keeps the hardening constants (and yield strength) it was created with: the caller's property dict is overwritten
+    AFTER create_material_model_functions and BEFORE anything is traced; (a) linear hardening: the whole yield-consistency /
+    idempotence / commit-energy chain holds against the creation constants; (b) linear, Voce, power law: two updates with the state
+    carried over and both energies equal those of a material created from an untouched dict with the same constants"""
+    _common(h)
+    J2, Hd, SRF, TM = _mods()
+    h.encoded(Hd.create_hardening_model, Hd.linear, Hd.voce, Hd.power_law)
+    h.bounds('(a) as O4/O6/O7 on the plane-strain block; overwriting constants: hardening modulus and yield strength, any positive reals',
+             '(b) all reals for strains/state/moduli/constants (term equality; pow/exp/expm1 uninterpreted), two steps')
+    h.assume_note('(b): the root-finder stub returns the same value for the same call (a function of everything the real call depends on); the post-condition is not used; '
+                  'no translator validation run for the twin function (same interpreter as every other obligation)')
+    # ---- (a)
+    ex = dict(EX, H2=7.0, Y2=1.7)
+    smp = lambda rng: sampler_full(rng) + [10 ** rng.uniform(-2, 1), 10 ** rng.uniform(-1, 0.5)]
+
+    def fa(dg, st, E, nu, Y0, H, dt, H2, Y2):
+        return f_chain(dg, st, E, nu, Y0, H, dt, energy=True, mutate={'hardening modulus': H2, 'yield strength': Y2})
+    ch = chain_case(h, build_plane, 'plane_dict_overwritten', fn=fa, ex=ex, sampler=smp)
+    if run_chain(h, ch, 'plane_dict_overwritten', 'O6'):
+        ch.link('plane_dict_overwritten.energy', lambda q: [Eq(s0(q.ax['W0']), s0(q.ax['W1']), when=v_not(q.gb), name='same_before_and_after_commit', scale=q.Y0)])
+    # ---- (b)
+    for kind, names, c1, c2 in LAWS:
+        exb = dict(dg=EX['dg'], dg2=EX['dg'] * 1.7 + 0.003, st=EX['st'], E=200.0, nu=0.3, Y0=1.0, dt=1.0, Y0x=1.6)
+        for n in names:
+            exb[n + '_created'] = c1[n]
+        for n in names:
+            exb[n + '_overwritten'] = c2[n]
+        c = J2Case(h, f_twin(kind, names), exb, sampler=None, label='twin[%s]' % kind, assume_post=False, validate=0)
+
+        def spec(i, o, calls):
+            A, B = o['A'], o['B']
+            return [], [Eq(list(A['s1']), list(B['s1']), name='first_update', scale=1e-3), Eq(list(A['s2']), list(B['s2']), name='second_update_from_carried_state', scale=1e-3),
+                        Eq(s0(A['w1']), s0(B['w1']), name='energy_first_step', scale=s0(i['Y0'])), Eq(s0(A['w2']), s0(B['w2']), name='energy_second_step', scale=s0(i['Y0']))]
+        c.prove('unaffected_by_later_dict_edits[%s]' % kind, spec, cap=60, order=('core', 'nlsat'), witness=False)
+
+
+# ------------------------------------------------------------------------------------------ O11: rate sensitivity, dt symbolic
+@obligation(P, 'O11.rate_sensitive', cap=600)
+def o11(h):
+    """power-law rate sensitivity with the time step a traced symbolic argument: (ii) the flow stress of the real hardening model is
+    Y0 + H eqps + S ((eqps - eqps_old)/(dt epsDot0))^(1/m) and the derivative of the incremental kinetic potential is that overstress
+    (m = 1 and m = 2); (i) m = 1: bracket valid and Mises stress after the update equal to that flow stress to the solver tolerance"""
+    from ..jxh import Case
+    _common(h)
+    J2, Hd, SRF, TM = _mods()
+    h.encoded(Hd.create_hardening_model, Hd.power_law_rate_sensitivity, Hd.linear)
+    h.bounds('0 <= S <= %g*Y0, %g <= reference rate, dt <= %g (dt traced), exponents m = 1 and m = 2 (concrete), eqps >= eqps_old' % (S_MAX_REL, RATE_MIN, RATE_MAX),
+             '(i): plane-strain block, moduli box as O4, m = 1')
+    h.outside('non-integer / symbolic rate exponents (pow stays uninterpreted)', 'idempotence and commit invariance for rate-sensitive materials (a second update starts from a different eqps_old: not a property)')
+    # ---- (ii)
+    for mexp in (1.0, 2.0):
+        def f(x, xo, dt, Y0, H, S, ed0, mexp=mexp):
+            hm = Hd.create_hardening_model(hardening_props(Y0, (H,), 'linear', (S, mexp, ed0)))
+            return hm.compute_flow_stress(x, xo, dt), jax.grad(Hd.power_law_rate_sensitivity)(x, xo, dt, S, mexp, ed0)
+        ex = dict(x=0.03, xo=0.01, dt=0.5, Y0=1.0, H=2.0, S=0.5, ed0=2.0)
+        smp = lambda rng: [0.02 + abs(rng.normal()) * 0.1, 0.02 * rng.uniform(), 10 ** rng.uniform(-3, 2), 1.0, 2.0, 10 ** rng.uniform(-1, 1), 10 ** rng.uniform(-2, 2)]
+        c = Case(h, f, ex, sampler=smp, label='flow_stress[m=%g]' % mexp)
+        sq = SpecSqrt()
+
+        def spec(i, o, mexp=mexp, sq=sq):
+            x, xo, dt, Y0, H, S, ed0 = [s0(i[k]) for k in ('x', 'xo', 'dt', 'Y0', 'H', 'S', 'ed0')]
+            rel = v_div(v_sub(x, xo), v_mul(dt, ed0))
+            asm = [v_le(xo, x), v_lt(0.0, dt), v_lt(0.0, ed0), v_le(0.0, S), v_lt(0.0, Y0)]
+            if mexp == 1.0:
+                over = v_mul(S, rel)
+            else:
+                root, d = sq('rel', rel)
+                asm += d
+                over = v_mul(S, root)
+            if mexp == 1.0:
+                return asm, [Eq(s0(o[1]), over, name='kinetic_potential_derivative_is_overstress', scale=Y0),
+                             Eq(s0(o[0]), v_add(v_add(Y0, v_mul(H, x)), over), name='flow_stress_is_Y_plus_overstress', scale=Y0)]
+            # m = 2: the code's own constants m/(m+1) = binary64(2/3) and (m+1)/m = 1.5 multiply to 1 - 5.6e-17, so the identity holds to
+            # a relative 1e-12 of the overstress (tolerance policy of DESIGN section 2: no ideal constant in the oracle)
+            tol = v_mul(1e-12, over)
+            return asm, [Le(v_abs(v_sub(s0(o[1]), over)), tol, name='kinetic_potential_derivative_is_overstress', scale=Y0),
+                         Le(v_abs(v_sub(s0(o[0]), v_add(v_add(Y0, v_mul(H, x)), over))), tol, name='flow_stress_is_Y_plus_overstress', scale=Y0)]
+        c.prove('dual_potential[m=%g]' % mexp, spec, cap=60, order=('core', 'nlsat'))
+    # ---- (i) m = 1
+    ex = dict(EX, dt=0.5, S=0.5, ed0=2.0)
+    smp = lambda rng: sampler_full(rng)[:6] + [10 ** rng.uniform(-2, 1), 10 ** rng.uniform(-1, 1), 10 ** rng.uniform(-2, 2)]
+
+    def fr(dg, st, E, nu, Y0, H, dt, S, ed0):
+        return f_chain(dg, st, E, nu, Y0, H, dt, rate=(S, 1.0, ed0))
+    ch = chain_case(h, build_plane, 'plane_rate_m1', fn=fr, ex=ex, sampler=smp)
+    links_flow_direction(ch)
+    links_yield_predicate(ch)
+    links_return(ch)
+    links_bracket(ch)
+    if not ch.violated:
+        ch.close('plane_rate_m1.lb_lt_ub', lambda q: Lt(q.A['lb'], q.A['ub'], when=q.g, scale=0.0))
+        ch.close('plane_rate_m1.r_lb_negative', lambda q: Lt(q.A['rl'], 0.0, when=q.g, scale=0.0))
+        ch.close('plane_rate_m1.r_ub_nonnegative', lambda q: Le(0.0, q.A['rh'], when=q.g, scale=0.0))
+        ch.contract_facts()
+        ch.close('plane_rate_m1.iv.mises_le_flow_plus_tol[yielding]', _goal_mises(lambda q: q.g))
+
+        def lower(q):
+            m2 = v_mul(4.0, v_mul(v_sq(q.mu), v_mul(C_FLOW, v_mul(C_FLOW, q.DD1))))
+            return Le(v_sq(v_sub(q.F1, q.tolY)), m2, when=q.g, name='', scale=v_sq(q.Y0))
+        ch.close('plane_rate_m1.iv.mises_ge_flow_minus_tol[yielding]', lower)
